@@ -136,6 +136,30 @@ R5 = {
  "C20": "Also: symbols wrapped with MapSymbol keep their publicity, dotted .id symbols, sort fields adopted by a query parsed from the empty filter (and the next empty-filter query references nothing).",
 }
 
+# what the sixth seeding round added
+R6 = {
+ "C01": "Round 6: integers next to each other above 2^53, instants outside the int64-nanosecond range, references stored as the empty string, bare map elements as conditions, a tag map registered under another bucket key.",
+ "C02": "Round 6: the related-entities cursor of a place as cursor provider, a bulk delete by a sorted and limited query removes exactly the selected page, a query parsed from the empty filter is changed through its setters and the next empty filter is everything again.",
+ "C03": "Round 6: the set index's change listener is told a consistent chain of role-set changes, FindMatching with unsorted value lists, a successor takes over a role before its only holder is deleted, role values differing only in letter case.",
+ "C04": "Round 6: a reference into a child store whose back-reference set is kept by the parent store, a restricting self-reference store with a root that has children, a missing target through the parent store for an entity with child data, a reference kept in a nested bucket.",
+ "C05": "Round 6: a ref-counted collection declared on the child store, two databases of one process written at the same time, backwards seeks on link cursors, IsEntityRelated through the declaring store.",
+ "C06": "Round 6: a referrer store whose back-references live on the parent of a child-store target, role values differing only in letter case, delete / re-create / bulk delete of one id in one transaction.",
+ "C07": "Round 6: parent rules (duplicate, empty value, missing reference target) on creates through the child store, the delete of a self-referencing root that has children.",
+ "C08": "Round 6: migration-step transactions, one context used for two transactions, an up-front commit action of a batch member beside a failing one, a commit action registered through a derived system context.",
+ "C09": "Round 6: a missing back-reference of a non-nullable reference (alone and behind an unrepairable reference of the same store), a symmetric link collection that is its own inverse.",
+ "C10": "Round 6: a digit glued to an identifier must be rejected (the grammar's identifiers have no digits), literals mixing escapes and multi-byte characters, the empty filter evaluated after another empty-filter query was given a predicate.",
+ "C11": "Round 6: the literal compared with a value reached through a reference (boss.sa) and with a tag-map element, half of the cases on a schema whose symbols live under other bucket keys.",
+ "C12": "Round 6: the shortest filters (true, false, true limit none) in several spellings through the child store, bare map elements as atoms.",
+ "C13": "Round 6: get-and-set setters report the old value and whether it changed, getters with defaults, nil tags on update, compound keys as link entries (AddCompoundLink / RemoveCompoundLink), field overrides at two context levels over like-named fields.",
+ "C14": "Round 6: the list forms of the matching look-ups (FindMatching / FindMatchingAnyOf), single links added and removed inside one transaction.",
+ "C15": "Round 6: the child keeps its own field under the bucket key of a parent field with overrides declared at both levels, entities without child data read no child field, a link collection owned by the child store.",
+ "C16": "Round 6: every entity is also loaded into one re-used entity value (a stale system flag must not be carried over).",
+ "C17": "Round 6: snapshot path templates, a reader positioned behind a header, restore from an opened file that must still be the snapshot afterwards, a read request served while a snapshot streams in.",
+ "C18": "Round 6: a snapshot streaming back in while a reader asks for the version, the version of a component after a rolled back migration, four timeline requests at once on a database without a timeline id.",
+ "C19": "Round 6: (universe) instants outside the int64-nanosecond range and big neighbouring integers.",
+ "C20": "Round 6: GetPublicSymbols equals the set made public, child stores that publish a symbol between two grants or register the standard entity symbols themselves, validation of one parsed query by four requests at once.",
+}
+
 def main():
     checks = []
     na = []
@@ -147,6 +171,8 @@ def main():
         _, cat, tech, text, note, ref = entry
         if pid in R5:
             text = text.rstrip() + " " + R5[pid]
+        if pid in R6:
+            text = text.rstrip() + " " + R6[pid]
         checks.append({
             "property_id": pid,
             "quick_cmd": "./check %s quick" % pid,
